@@ -205,7 +205,8 @@ PROPS['C11'] = dict(
     facts=['*'],
     theorems=['C11_caller_only', 'C11_signed', 'C11_signed_withdraw', 'C11_signed_same_native', 'C11_transfer_self_only', 'C11_logs_exact',
               'C11_no_event_fails', 'C11_two_calls', 'C11_logs_name_delegator', 'fact_staking_executors', 'fact_staking_reward_queries'],
-    engines=[dict(name='staking', test='TestEngineStaking', quick=500, thorough=6000, thorough_seeds=3)],
+    engines=[dict(name='staking', test='TestEngineStaking', quick=500, thorough=6000, thorough_seeds=3),
+             dict(name='crypto', test='TestEngineCrypto', quick=600, thorough=6000, thorough_seeds=2, no_model=True, own_oracles_only=True)],   # oracle C11-typed-message-chain-id only: the typed messages' digest and signature check for chain ids up to and beyond 64 bits
     rule='random sequences of staking-precompile calls (delegate / undelegate / redelegate / withdrawReward / withdrawRewards / transfer / delegateByActionMessage / withdrawRewardsByMessage; callers: three EOAs, a contract forwarding by CALL, a contract forwarding by DELEGATECALL; validators incl. a non-validator address; amounts 0, 1.., exact, exact+1, half; signatures honest, v+27, replayed by another caller, for another chain id, by another key, tampered amount / validator / s, bad denom) interleaved with native MsgDelegate, reward allocation and block progression (unbonding time 3 h, 1 h blocks: entries mature); every call runs through EvmKeeper.ApplyMessage(commit) on one cache context and the native message named by the specification through the SDK message servers on a second cache of the same state; staking, distribution and bank stores compared byte for byte (withdraw-all / transfer: staking + bank byte for byte, pending rewards / outstanding / commission / community pool by value), success compared, logs compared with the model translation of the native run\'s module events; view methods compared with the native gRPC queriers; non-trivial = every call line; distinct by op-line hash',
     assumptions=['x/staking and x/distribution themselves are not modelled: the model fixes which native message (delegator, validators, amount) the precompile hands to them; their effect is whatever the SDK does (twin execution)',
                  'secp256k1 recovery and the EIP-712 hash are the library functions (the harness signs typed data it builds itself with go-ethereum signer/core/apitypes); in the model the recovered address is an input',
